@@ -74,9 +74,9 @@ def gen_fmt(ctx):
         txt_lens = list(range(0, 1100)) + [4000, 65535, 65536]
     for n in txt_lens:
         add("rt_txt", rb(rng, n))
-    resp_lens = list(range(0, 4)) + [255, 256, 257, 1000, 65535, 65536]
+    resp_lens = list(range(0, 4)) + [254, 255, 256, 257, 258, 1000, 65534, 65535, 65536, 65537]
     if not quick:
-        resp_lens += [65534, 65537, 70000]
+        resp_lens += [70000]
     if not quick:
         resp_lens += list(range(4, 255, 7)) + [65535 + 256, 131072]
     for n in resp_lens:
@@ -210,6 +210,15 @@ def gen_names(ctx):
         n = rng.choice([1, 2, 3, 8, 30])
         read_name(bytes(rng.choice([0, 1, 2, 3, 0xC0, 0xC0, 0xC1, 0x40, 0x80, rng.getrandbits(8)]) for _ in range(n)),
                   rng.randrange(0, n + 1))
+
+    # TrimSuffix beyond ASCII (bytes.ToLower is UTF-8 aware): exact suffixes must match whatever the bytes are
+    na = [bytes([0xff]), bytes([0xfe]), "É".encode(), "é".encode(), bytes([0xc3]), bytes([0x80, 0x41]), b"a\xffB", "ß".encode(), "İ".encode()]
+    for _ in range(12 if quick else 200):
+        pre = [rng.choice(na + [rlabel(rng, 3, True)]) for _ in range(rng.randrange(0, 3))]
+        suf = [rng.choice(na) for _ in range(rng.randrange(1, 3))]
+        out.append(Case("trim_na", "dns", {"op": "trim", "labels": hexl(pre + suf), "suffix": hexl(suf)}, (pre + suf, suf, True)))
+    for a_, b_ in [(bytes([0xff]), bytes([0xfe])), ("É".encode(), "é".encode()), (b"a\xffB", b"A\xffb"), (bytes([0xc3]), bytes([0xc4])), ("É".encode(), b"e")]:
+        out.append(Case("trim_na", "dns", {"op": "trim", "labels": hexl([b"x", a_]), "suffix": hexl([b_])}, ([b"x", a_], [b_], False)))
 
     # Name.String (the cache key): labels with dots, backslashes, escapes spelled out, every byte class
     specials = [b".", b"\\", b"\\x2e", b"x2e", b"a.b", b"a\\x2eb", b"-", b"0", b"9", b"A", b"Z", b"a", b"z", b"/", b":", b"@", b"[", b"`", b"{",
@@ -383,7 +392,7 @@ def gen_msg(ctx):
                 m[rng.choice(["an", "ns", "ar"])].append(mk_rr(rng, n))
             add(m)
     # RDATA length limit
-    for n in ([65536] if quick else [65534, 65535, 65536, 65537, 70000]):
+    for n in ([65535, 65536] if quick else [65534, 65535, 65536, 65537, 70000]):
         m = empty_msg(rng)
         m["an"].append(mk_rr(rng, [b"big"], big=n))
         m["ns"].append(mk_rr(rng, [b"after", b"big"]))
@@ -692,18 +701,18 @@ def gen_pb(ctx):
     for k in kinds:
         for d in hand:
             dec(k, d)
-        for _ in range(10 if quick else 300):
+        for _ in range(6 if quick else 300):
             n = rng.choice([1, 2, 3, 5, 8, 13])
             dec(k, bytes(rng.choice([0x08, 0x10, 0x12, 0x18, 0x20, 0x68, 0x0a, 0x00, 0x01, 0x02, 0x80, 0xff, rng.getrandbits(8)]) for _ in range(n)))
         # bytes of every other type (what URL-less unpacking into the wrong type does)
         for k2 in kinds:
-            for v in samples[k2][: (4 if quick else 60)]:
+            for v in samples[k2][: (2 if quick else 60)]:
                 dec(k, pb_encode(k2, v))
     # the station's path: Any bytes -> UnmarshalAnypbTo(dst)
     for k in ("generic", "prefix", "dtls"):
         for dst in ("generic", "prefix", "dtls"):
             for mode in ("empty", "keep", "tapdance", "other"):
-                for v in samples[k][: (3 if quick else 40)]:
+                for v in samples[k][: (2 if quick else 40)]:
                     a = {"url": any_url(k, mode).encode().hex(), "value": pb_encode(k, v).hex(), "unk": ""}
                     d = pb_encode("any", a)
                     out.append(Case("anypb_bytes", "transports", {"op": "anypb_bytes", "dstkind": dst, "data": d.hex()}, (k, dst, mode, v, d)))
@@ -868,7 +877,7 @@ def post_dot_recv(ctx, c):
     d, r = c.aux, c.res
     got = unhexl(r.get("msgs"))
     ctx.count(("dot_recv", d), kind="dot_recv/" + ("clean" if r["clean"] else "error"))
-    if r["err"] not in ("", "unexpected EOF"):
+    if r["err"] not in ("", "unexpected EOF", "EOF"):   # EOF right after a length prefix is returned as io.EOF by ReadFull
         ctx.broken("correspondence", "unexpected outcome of recvLoop: %r" % r["err"], {"fam": "dot_recv", "data": d.hex()})
         return None
     return "CDotRecv %s %s %s" % (hexs(d), g_blist(got, hexs), gbool(r["clean"]))
@@ -1001,6 +1010,16 @@ def post_trim(ctx, c):
     if r["ok"] != expect or (r["ok"] and pre != n[:len(n) - len(suf)]):
         ctx.fail("trim", "TrimSuffix(prefix ++ suffix, suffix) did not return the prefix", {"fam": "trim", "labels": hexl(n), "suffix": hexl(suf)})
     return "CTrim %s %s %s %s" % (gname(n), gname(suf), gbool(r["ok"]), gname(pre))
+
+
+def post_trim_na(ctx, c):
+    (n, suf, exact), r = c.aux, c.res
+    pre = unhexl(r.get("labels"))
+    ctx.count(("trim_na", n, suf), kind="trim_na/" + ("exact" if exact else "go-match" if r["ok"] else "go-nomatch"))
+    if exact and not (r["ok"] and pre == n[:len(n) - len(suf)]):
+        ctx.fail("trim/non-ascii-exact", "TrimSuffix(prefix ++ suffix, suffix) did not return the prefix for labels with non-ASCII bytes",
+                 {"fam": "trim", "labels": hexl(n), "suffix": hexl(suf)})
+    return "CTrimNA %s %s %s %s" % (gname(n), gname(suf), gbool(r["ok"]), gname(pre))
 
 
 def post_name_string(ctx, c):
@@ -1164,7 +1183,7 @@ def post_msg_rt(ctx, c):
                                       g_msg(r.get("msg") if r.get("ok2") else None, g_obs_rr))
 
 
-TERMS = {"dot_rt": post_dot_rt, "dot_recv": post_dot_recv, "pb_rt": post_pb_rt, "pb_dec": post_pb_dec, "anypb_bytes": post_anypb_bytes, "name_string": post_name_string, "exchange": post_exchange, "query": post_query, "msg_rt": post_msg_rt, "msg_dec": post_msg_dec, "anypb": post_any, "obf": post_obf, "reveal": post_reveal, "fmt": post_fmt, "name_rt": post_name_rt, "read_name": post_read_name, "trim": post_trim,
+TERMS = {"trim_na": post_trim_na, "dot_rt": post_dot_rt, "dot_recv": post_dot_recv, "pb_rt": post_pb_rt, "pb_dec": post_pb_dec, "anypb_bytes": post_anypb_bytes, "name_string": post_name_string, "exchange": post_exchange, "query": post_query, "msg_rt": post_msg_rt, "msg_dec": post_msg_dec, "anypb": post_any, "obf": post_obf, "reveal": post_reveal, "fmt": post_fmt, "name_rt": post_name_rt, "read_name": post_read_name, "trim": post_trim,
          "chunks": post_chunks, "b32": post_b32}
 
 
@@ -1251,7 +1270,7 @@ def run(ctx):
     ctx.cov["rule"] = ("encoders on every payload/label/name length 0..limit+2 with random content, decoders on random and "
                        "near-valid byte strings (pointer chains, loops, truncation); a case is non-trivial if it is hash-distinct "
                        "and either succeeds or exercises a distinct rejection (counted per op)")
-    ctx.coq_props()
+    ctx.coq_props(props_files=["C15/Props.v", "C15/Props2.v"])
     rc, out = ctx.coq_make(["C15/Examples.vo", "C15/Run.vo"])
     if rc != 0:
         ctx.broken("examples", "non-vacuity examples (C15/Examples.v) or the case evaluator (C15/Run.v) no longer check: " + out[-500:])
@@ -1323,7 +1342,7 @@ def run(ctx):
                        "rem_resp/err", "dec_txt/ok", "dec_txt/err",
                        "name_rt/ok", "name_rt/zero", "name_rt/labellong", "name_rt/namelong",
                        "read_name/ok", "read_name/eof", "read_name/reserved", "read_name/ptrs", "read_name/namelong",
-                       "trim/ok", "trim/no", "name_string", "chunks/63", "b32", "send/ok", "send/err",
+                       "trim/ok", "trim/no", "trim_na/exact", "trim_na/go-match", "name_string", "chunks/63", "b32", "send/ok", "send/err",
                        "obf/xor/ok", "obf/xor/err", "obf/nil/ok", "obf/ctr/ok", "obf/ctr/err", "obf/gcm/ok", "obf/gcm/err",
                        "reveal/xor/ok", "reveal/xor/err", "reveal/ctr/ok", "reveal/ctr/err", "reveal/gcm/err", "reveal/nil/ok",
                        "msg_rt/ok", "msg_rt/overflow", "msg_rt/panic", "msg_rt/undecodable:namelong",
